@@ -64,24 +64,21 @@ func (pq *pqList) Insert(id interface{}, expireAt time.Time) {
 	pq.insert(id, expireAt)
 }
 func (pq *pqList) insert(id interface{}, expireAt time.Time) {
-	pq.mtx.RLock()
 	deadline := expireAt.Round(time.Second)
+	// the bucket must not be popped by Expire between lookup and put
+	pq.mtx.Lock()
+	defer pq.mtx.Unlock()
 	elt, ok := pq.buckets[deadline]
-	pq.mtx.RUnlock()
 	if !ok {
-		pq.mtx.Lock()
-		defer pq.mtx.Unlock()
-		if elt, ok = pq.buckets[deadline]; !ok {
-			elt = &bucket{
-				data: []item{
-					{value: id, deadline: expireAt},
-				},
-				deadline: deadline,
-			}
-			pq.buckets[deadline] = elt
-			heap.Push(&pq.pq, elt)
-			return
+		elt = &bucket{
+			data: []item{
+				{value: id, deadline: expireAt},
+			},
+			deadline: deadline,
 		}
+		pq.buckets[deadline] = elt
+		heap.Push(&pq.pq, elt)
+		return
 	}
 	elt.put(id, expireAt)
 }
@@ -116,6 +113,7 @@ func (pq *pqList) Expire(now time.Time) []interface{} {
 			return out
 		}
 		expired := heap.Pop(&pq.pq).(*bucket)
+		delete(pq.buckets, expired.deadline)
 		for _, v := range expired.data {
 			out = append(out, v.value)
 		}
